@@ -389,6 +389,9 @@ func init() {
 			}
 			n := len(tamper.Enumerate(base, [][]byte{sim.PubOf(9)}))
 			chunk := 30
+			// a self-consistent, sufficiently signed response none of whose signers the node knows is refused too
+			// (C14): C12's "a refused response leaves ... the application untouched" is judged on those as well
+			items = append(items, FFItem{Target: 4, Level: "forged-node"}, FFItem{Target: 3, Level: "forged-node"})
 			// three validators (the smallest set in which one signature is not more than a third): the untampered
 			// response and the signature-map attacks only
 			items = append(items, FFItem{N: 3, Target: 3, Level: "core"}, FFItem{N: 3, Target: 3, Level: "node"})
@@ -431,7 +434,16 @@ func init() {
 			tot.Attempts += res.Attempts
 			tot.Accepted += res.Accepted
 			tot.Refused += res.Refused
-			tot.Viol = append(tot.Viol, res.Viol...)
+			for _, v := range res.Viol {
+				if prop == "C12" && v.Property == "C14" {
+					// forged responses inside the C12 run: only the refused-means-untouched verdicts are C12's
+					if !strings.HasPrefix(v.Key, "refused-but") {
+						continue
+					}
+					v.Property = "C12"
+				}
+				tot.Viol = append(tot.Viol, v)
+			}
 			for k, v := range res.Classes {
 				tot.Classes[k] += v
 			}
@@ -462,7 +474,7 @@ func init() {
 		if prop == "C12" {
 			cov["rule"] = "a valid (block, frame, snapshot) triple served by an honest node of a 4-validator + joiner history (and, for the signature-map attacks, of a 3-validator + joiner history), JSON-copied, with every single field replaced by every value of the hostile grammar (reflection over block body, signature map incl. the same signer under re-encoded keys, frame round/timestamp/peers/roots/events/peer-set history, snapshot) plus targeted signature-map attacks (signatures removed down to and below the threshold, signature of another body, non-member signer, one signer under several spellings); presented to a fresh joiner, a lagging validator with history and a validator that is ahead, at core.fastForward and through the node's own Node.fastForward against a hostile responder. Oracle: adopted => the harness's own predicate (frame hashes to FrameHash, frame peers hash to PeersHash, valid signatures of > n/3 distinct members); refused => digest of hashgraph, store, validator sets, head AND application unchanged. Each attempt is distinct (distinct_nontrivial = attempts)"
 		} else {
-			cov["rule"] = "forged responses built from a real, self-consistent network of 1..4 strangers (harness keys 10..13 run as their own babble network; its genuine anchor block, frame and snapshot are correctly signed by all of them), with variations (a known peer listed in the forged set but not signing, a known peer with an invalid signature, block index rewritten and re-signed by the strangers); presented to a fresh joiner, a lagging validator and a validator that is ahead at core.fastForward and through Node.fastForward (the forger answering every request); and to a newcomer that is still Joining, whose join request the forger answers itself with accepted=true and a peer list made of the forged validator set before serving the forged response (real Node.join, then Node.fastForward); and to a validator restarted from its database with fast-sync after its network had committed the refusal of a stranger's join request, the stranger's address serving its own network's anchor. Oracle: a response without a valid signature from any key in the peer list the node was started with, its genesis peers or its stored validator sets must be refused and leave the node's digest and application unchanged"
+			cov["rule"] = "forged responses built from a real, self-consistent network of 1..4 strangers (harness keys 10..13 run as their own babble network; its genuine anchor block, frame and snapshot are correctly signed by all of them), with variations (a known peer listed in the forged set but not signing, a known peer with an invalid signature, a known peer with a stranger's signature string, block index rewritten and re-signed by the strangers); presented to a fresh joiner, a lagging validator and a validator that is ahead at core.fastForward and through Node.fastForward (the forger answering every request); and to a newcomer that is still Joining, whose join request the forger answers itself with accepted=true and a peer list made of the forged validator set before serving the forged response (real Node.join, then Node.fastForward); and to a validator restarted from its database with fast-sync after its network had committed the refusal of a stranger's join request, the stranger's address serving its own network's anchor. Oracle: a response without a valid signature from any key in the peer list the node was started with, its genesis peers or its stored validator sets must be refused and leave the node's digest and application unchanged"
 		}
 		rep.Assumptions = []string{"Frame.Hash is used as given (C15 checks that it is a function of the frame's content)"}
 		if tot.Attempts == 0 {
@@ -609,6 +621,14 @@ func forgeries() ([]*net.FastForwardResponse, []string) {
 			cp2.Block.Signatures[honest] = "1|1"
 			out = append(out, cp2)
 			names = append(names, fmt.Sprintf("%d stranger(s) + known peer 0 listed with an invalid signature", n))
+			// the known peer listed with a stranger's signature string (a valid signature - of somebody else)
+			cp4 := tamper.Copy(cp).(*net.FastForwardResponse)
+			for _, sg := range cp4.Block.Signatures {
+				cp4.Block.Signatures[honest] = sg
+				break
+			}
+			out = append(out, cp4)
+			names = append(names, fmt.Sprintf("%d stranger(s) + known peer 0 listed with a stranger's signature string", n))
 			cp3 := tamper.Copy(resp).(*net.FastForwardResponse)
 			cp3.Block.Body.Index = 1000000
 			reSign(cp3)
